@@ -141,6 +141,8 @@ pub struct Reached {
     pub generated: bool,
     pub diagnostics: usize,
     pub rendered: usize,
+    /// introspection route only: the schema is not a valid type system and the case stopped there
+    pub excluded_invalid_json_schema: bool,
 }
 
 fn render_errors(errs: Vec<PositionedError>, files: &Vec<(PathBuf, &str, ())>, detail: &Value, reached: &mut Reached) -> Result<(), Failure> {
@@ -196,8 +198,56 @@ pub fn run_pipeline(
     if !schema_ok {
         return Ok(reached);
     }
+    ops_and_generate(&sdoc, None, schema_files.len(), op_files, &files, config, detail, reached)
+}
+
+/// The same for a schema given as an introspection result (a `.json` schema file): the CLI reads it with
+/// schema_from_introspection_json, runs no schema check, checks operations against the schema value and
+/// prints from `type_system_to_ast(&value)`.
+pub fn run_pipeline_json(
+    json_text: &str,
+    op_files: &[(PathBuf, String)],
+    config: &Config,
+    detail: &Value,
+    // open finding C08-introspection-invalid-schema-unchecked: stop where nitrogql's own type-system checker
+    // (which the CLI does not run on such schemas) would have stopped
+    gate_invalid_schema: bool,
+) -> Result<Reached, Failure> {
+    let mut reached = Reached::default();
+    let jfile = vec![(PathBuf::from("/p/schema.json"), json_text.to_string())];
+    let files: Vec<(PathBuf, &str, ())> = jfile.iter().chain(op_files.iter()).map(|(p, t)| (p.clone(), t.as_str(), ())).collect();
+    let r = guard(|| nitrogql_introspection::schema_from_introspection_json::<nitrogql_ast::base::Pos>(json_text))
+        .map_err(|p| panic_failure("schema_from_introspection_json", &p, detail.clone()))?;
+    let Ok(value) = r else {
+        reached.diagnostics += 1;
+        return Ok(reached);
+    };
+    reached.schema_parsed = true;
+    let sdoc = guard(|| nitrogql_semantics::type_system_to_ast(&value)).map_err(|p| panic_failure("type_system_to_ast", &p, detail.clone()))?;
+    // nitrogql's type-system checker on the re-created AST (never a panic; the `__` names of the meta types
+    // an introspection result lists are not faults)
+    let cerrs = guard(|| check_type_system_document(&sdoc)).map_err(|p| panic_failure("check_type_system_document", &p, detail.clone()))?;
+    let invalid = cerrs.iter().any(|e| !matches!(e.message, nitrogql_checker::CheckErrorMessage::UnscoUnsco));
+    if invalid && gate_invalid_schema {
+        reached.excluded_invalid_json_schema = true;
+        return Ok(reached);
+    }
+    reached.schema_checked = true;
+    ops_and_generate(&sdoc, Some(&value), 1, op_files, &files, config, detail, reached)
+}
+
+#[allow(clippy::too_many_arguments)]
+fn ops_and_generate(
+    sdoc: &TypeSystemDocument,
+    schema_value: Option<&graphql_type_system::Schema<std::borrow::Cow<'_, str>, nitrogql_ast::base::Pos>>,
+    n_schema: usize,
+    op_files: &[(PathBuf, String)],
+    files: &Vec<(PathBuf, &str, ())>,
+    config: &Config,
+    detail: &Value,
+    mut reached: Reached,
+) -> Result<Reached, Failure> {
     // ---- operations
-    let n_schema = schema_files.len();
     let mut parsed = vec![];
     let mut errs: Vec<PositionedError> = vec![];
     for (i, (path, text)) in op_files.iter().enumerate() {
@@ -208,7 +258,7 @@ pub fn run_pipeline(
         }
     }
     if !errs.is_empty() {
-        render_errors(errs, &files, detail, &mut reached)?;
+        render_errors(errs, files, detail, &mut reached)?;
         return Ok(reached);
     }
     reached.ops_parsed = true;
@@ -221,7 +271,7 @@ pub fn run_pipeline(
         }
     }
     if !errs.is_empty() {
-        render_errors(errs, &files, detail, &mut reached)?;
+        render_errors(errs, files, detail, &mut reached)?;
         return Ok(reached);
     }
     let resolver = Ops { by_path: step1.iter().map(|(p, d, e, _)| (p.as_path(), (d, e))).collect() };
@@ -236,16 +286,23 @@ pub fn run_pipeline(
         }
     }
     if !errs.is_empty() {
-        render_errors(errs, &files, detail, &mut reached)?;
+        render_errors(errs, files, detail, &mut reached)?;
         return Ok(reached);
     }
-    let schema = guard(|| ast_to_type_system(&sdoc)).map_err(|p| panic_failure("ast_to_type_system", &p, detail.clone()))?;
-    let ctx = OperationCheckContext::new(&schema);
+    let converted;
+    let schema = match schema_value {
+        Some(v) => v,
+        None => {
+            converted = guard(|| ast_to_type_system(sdoc)).map_err(|p| panic_failure("ast_to_type_system", &p, detail.clone()))?;
+            &converted
+        }
+    };
+    let ctx = OperationCheckContext::new(schema);
     let mut all_ok = true;
     for (_, doc, _) in &resolved {
         let cerrs = guard(|| check_operation_document(doc, &ctx)).map_err(|p| panic_failure("check_operation_document", &p, detail.clone()))?;
         all_ok &= cerrs.is_empty();
-        render_errors(cerrs.into_iter().map(Into::into).collect(), &files, detail, &mut reached)?;
+        render_errors(cerrs.into_iter().map(Into::into).collect(), files, detail, &mut reached)?;
     }
     reached.ops_checked = true;
     if !all_ok {
@@ -259,7 +316,7 @@ pub fn run_pipeline(
         let mut writer = SourceWriter::new();
         writer.set_file_index_mapper(schema_indices.clone());
         let mut printer = SchemaTypePrinter::new(options, &mut writer);
-        let _ = printer.print_document(&sdoc);
+        let _ = printer.print_document(sdoc);
         let b = writer.into_buffers();
         let mut map = String::new();
         let _ = print_source_map_json(Path::new("/p/schema.d.ts"), &all_paths[..n_schema], &b.names, &b.source_map, &mut map);
@@ -268,7 +325,7 @@ pub fn run_pipeline(
     guard(|| {
         let mut buffer = String::new();
         let mut writer = JsStringWriter::new(&mut buffer);
-        remove_builtins(&sdoc).print_graphql(&mut writer);
+        remove_builtins(sdoc).print_graphql(&mut writer);
     })
     .map_err(|p| panic_failure("print_graphql(schema)", &p, detail.clone()))?;
     guard(|| {
@@ -278,7 +335,7 @@ pub fn run_pipeline(
         writer.set_file_index_mapper(schema_indices.clone());
         let mut printer = ResolverTypePrinter::new(options, &mut writer);
         let plugins: Vec<nitrogql_plugin::Plugin> = vec![];
-        let _ = printer.print_document(&sdoc, &plugins);
+        let _ = printer.print_document(sdoc, &plugins);
     })
     .map_err(|p| panic_failure("ResolverTypePrinter", &p, detail.clone()))?;
     for (path, doc, idx) in &resolved {
@@ -289,7 +346,7 @@ pub fn run_pipeline(
             let mut writer = SourceWriter::new();
             let indices: Vec<usize> = (0..all_paths.len()).map(|i| if i < n_schema || i == *idx { i.min(n_schema) } else { usize::MAX }).collect();
             writer.set_file_index_mapper(indices);
-            print_types_for_operation_document(options, &schema, doc, &mut writer);
+            print_types_for_operation_document(options, schema, doc, &mut writer);
             let b = writer.into_buffers();
             let mut map = String::new();
             let _ = print_source_map_json(path, &all_paths, &b.names, &b.source_map, &mut map);
@@ -982,8 +1039,10 @@ fn cli_case(case: &mut Case, base: &Path) -> CaseResult {
         _ => &["check", "generate"],
     };
     let format = *mch.pick(&["human", "json", "rdjson"]);
-    let mutation = mch.below(5);
+    let mutation = mch.below(6);
     let mut mode = "valid";
+    // (file path relative to the project, byte offset share, bytes) of a non-UTF-8 sequence put into a written file
+    let mut raw_bytes: Option<(String, usize, Vec<u8>)> = None;
     match mutation {
         1 => {
             mode = "op-char-mutation";
@@ -1018,6 +1077,23 @@ fn cli_case(case: &mut Case, base: &Path) -> CaseResult {
                 gp.config = mutate_chars(&mut mch, &gp.config.clone());
             }
         }
+        5 => {
+            // a file on disk need not be UTF-8 (Latin-1 comment, truncated multi-byte character, UTF-16 BOM)
+            mode = "non-utf8-file";
+            let rel = match mch.below(3) {
+                0 => gp.op_files[mch.below(gp.op_files.len())].0.clone(),
+                1 => gp.schema_files[mch.below(gp.schema_files.len())].0.clone(),
+                _ => crate::projects::join(&gp.layout.root, "graphql.config.yaml"),
+            };
+            let bytes: Vec<u8> = match mch.below(5) {
+                0 => vec![0xFF],
+                1 => vec![0xC3, 0x28],
+                2 => vec![0xE3, 0x81],
+                3 => vec![0xFF, 0xFE, b'q', 0x00],
+                _ => vec![0xED, 0xA0, 0x80],
+            };
+            raw_bytes = Some((rel, mch.below(1000), bytes));
+        }
         _ => {}
     }
     if gp.schema_files.iter().chain(gp.op_files.iter()).any(|f| nesting(&f.1) > 64) {
@@ -1035,6 +1111,13 @@ fn cli_case(case: &mut Case, base: &Path) -> CaseResult {
     let dir = base.join(format!("p{:016x}", hash_of(&(case.ch.data(), thread_key()))));
     let proj: Project = write_project(&gp, &dir);
     let root = proj.path(&gp.layout.root);
+    if let Some((rel, share, bytes)) = &raw_bytes {
+        let path = proj.path(rel);
+        let mut content = std::fs::read(&path).expect("written file");
+        let at = content.len() * share / 1000;
+        content.splice(at..at, bytes.iter().copied());
+        std::fs::write(&path, content).expect("rewrite file");
+    }
     let mut args: Vec<&str> = vec![];
     args.extend_from_slice(command);
     args.extend_from_slice(&["--output-format", format]);
@@ -1044,6 +1127,7 @@ fn cli_case(case: &mut Case, base: &Path) -> CaseResult {
     let detail = json!({
         "mode": mode, "args": args, "config": gp.config,
         "schema_files": gp.schema_files, "operation_files": gp.op_files,
+        "raw_bytes": raw_bytes.as_ref().map(|(rel, share, b)| json!({"file": rel, "offset_permille": share, "bytes": b})),
         "status": run.status, "stderr": run.stderr.chars().take(600).collect::<String>(),
         "stdout": run.stdout.chars().take(300).collect::<String>(),
     });
@@ -1076,6 +1160,252 @@ fn cli_case(case: &mut Case, base: &Path) -> CaseResult {
         case.nontrivial(&(mode, &gp.schema_files, &gp.op_files, &gp.config, format));
     }
     case.sample(|| json!({"mode": mode, "args": args, "status": run.status}));
+    Ok(())
+}
+
+// ---------------------------------------------------------------------------
+// introspection JSON as schema text
+
+/// paths of all JSON values satisfying `pred`, in document order
+fn json_paths(v: &Value, pred: &dyn Fn(&Value) -> bool, cur: &mut Vec<String>, out: &mut Vec<Vec<String>>) {
+    if pred(v) {
+        out.push(cur.clone());
+    }
+    match v {
+        Value::Object(m) => {
+            for (k, x) in m {
+                cur.push(k.clone());
+                json_paths(x, pred, cur, out);
+                cur.pop();
+            }
+        }
+        Value::Array(a) => {
+            for (i, x) in a.iter().enumerate() {
+                cur.push(i.to_string());
+                json_paths(x, pred, cur, out);
+                cur.pop();
+            }
+        }
+        _ => {}
+    }
+}
+
+fn json_at<'a>(v: &'a mut Value, path: &[String]) -> Option<&'a mut Value> {
+    let mut cur = v;
+    for k in path {
+        cur = match cur {
+            Value::Object(m) => m.get_mut(k)?,
+            Value::Array(a) => a.get_mut(k.parse::<usize>().ok()?)?,
+            _ => return None,
+        };
+    }
+    Some(cur)
+}
+
+const JSON_KINDS: &[&str] = &["SCALAR", "OBJECT", "INTERFACE", "UNION", "ENUM", "INPUT_OBJECT", "LIST", "NON_NULL", "THING"];
+
+/// One structural mutation of an introspection result; returns its label.
+fn mutate_introspection(ch: &mut Choices, v: &mut Value) -> &'static str {
+    let is_type_ref = |x: &Value| x.get("kind").is_some() && x.get("ofType").is_some() && x.get("fields").is_none();
+    let is_named_ref = |x: &Value| x.get("kind").is_some() && x.get("ofType").is_some() && x.get("fields").is_none() && x.get("name").map(|n| n.is_string()).unwrap_or(false);
+    let pick_path = |ch: &mut Choices, v: &Value, pred: &dyn Fn(&Value) -> bool| -> Option<Vec<String>> {
+        let mut out = vec![];
+        json_paths(v, pred, &mut vec![], &mut out);
+        if out.is_empty() { None } else { Some(out[ch.below(out.len())].clone()) }
+    };
+    match ch.below(12) {
+        0 => {
+            // a reference to a type the result does not list
+            if let Some(p) = pick_path(ch, v, &is_named_ref) {
+                json_at(v, &p).unwrap()["name"] = json!("Missing");
+            }
+            "dangling-type-reference"
+        }
+        1 => {
+            // a reference to an existing type of another kind (the reference keeps its `kind` member)
+            let names: Vec<String> = v["__schema"]["types"].as_array().map(|a| a.iter().filter_map(|t| t["name"].as_str().map(String::from)).collect()).unwrap_or_default();
+            if let (Some(p), false) = (pick_path(ch, v, &is_named_ref), names.is_empty()) {
+                json_at(v, &p).unwrap()["name"] = json!(names[ch.below(names.len())]);
+            }
+            "reference-to-type-of-other-kind"
+        }
+        2 => {
+            if let Some(a) = v["__schema"]["types"].as_array_mut() {
+                if !a.is_empty() {
+                    let i = ch.below(a.len());
+                    a.remove(i);
+                }
+            }
+            "type-removed"
+        }
+        3 => {
+            if let Some(a) = v["__schema"]["types"].as_array_mut() {
+                if !a.is_empty() {
+                    let i = ch.below(a.len());
+                    let mut c = a[i].clone();
+                    if ch.flip() {
+                        // same name, another kind
+                        c["kind"] = json!(*ch.pick(JSON_KINDS));
+                    }
+                    a.push(c);
+                }
+            }
+            "type-duplicated"
+        }
+        4 => {
+            let is_def = |x: &Value| x.get("kind").is_some() && x.get("fields").is_some();
+            if let Some(p) = pick_path(ch, v, &is_def) {
+                json_at(v, &p).unwrap()["kind"] = json!(*ch.pick(JSON_KINDS));
+            }
+            "definition-kind-changed"
+        }
+        5 => {
+            if let Some(p) = pick_path(ch, v, &is_type_ref) {
+                json_at(v, &p).unwrap()["kind"] = json!(*ch.pick(JSON_KINDS));
+            }
+            "reference-kind-changed"
+        }
+        6 => {
+            // a member becomes null / disappears / changes its JSON type
+            let any_obj = |x: &Value| x.is_object() && !x.as_object().unwrap().is_empty();
+            if let Some(p) = pick_path(ch, v, &any_obj) {
+                let o = json_at(v, &p).unwrap().as_object_mut().unwrap();
+                let keys: Vec<String> = o.keys().cloned().collect();
+                let k = keys[ch.below(keys.len())].clone();
+                match ch.below(5) {
+                    0 => {
+                        o.remove(&k);
+                    }
+                    1 => {
+                        o.insert(k, Value::Null);
+                    }
+                    2 => {
+                        o.insert(k, json!([]));
+                    }
+                    3 => {
+                        o.insert(k, json!(""));
+                    }
+                    _ => {
+                        o.insert(k, json!({}));
+                    }
+                }
+            }
+            "member-nulled-or-retyped"
+        }
+        7 => {
+            let k = *ch.pick(&["queryType", "mutationType", "subscriptionType"]);
+            let names: Vec<String> = v["__schema"]["types"].as_array().map(|a| a.iter().filter_map(|t| t["name"].as_str().map(String::from)).collect()).unwrap_or_default();
+            let n = if ch.flip() || names.is_empty() { "Missing".to_string() } else { names[ch.below(names.len())].clone() };
+            v["__schema"][k] = json!({ "name": n });
+            "root-type-changed"
+        }
+        8 => {
+            // names that are not GraphQL names
+            let has_name = |x: &Value| x.get("name").map(|n| n.is_string()).unwrap_or(false);
+            if let Some(p) = pick_path(ch, v, &has_name) {
+                let n = *ch.pick(&["", "a b", "1x", "__proto__", "constructor", "a-b", "\u{1F600}", "type", "Query"]);
+                json_at(v, &p).unwrap()["name"] = json!(n);
+            }
+            "name-not-a-name"
+        }
+        9 => {
+            // default values that are not GraphQL value syntax / of another type
+            let has_default = |x: &Value| x.get("defaultValue").is_some();
+            if let Some(p) = pick_path(ch, v, &has_default) {
+                let d = *ch.pick(&["", "{", "[1,", "\"", "$v", "{a: 1}", "[[[1]]]", "ENUM_X", "null", "1e999", "\"\"\"x"]);
+                json_at(v, &p).unwrap()["defaultValue"] = json!(d);
+            }
+            "default-value-mangled"
+        }
+        10 => {
+            // an element appears twice (field, argument, enum value, interface, possible type, directive location)
+            let non_empty_array = |x: &Value| x.as_array().map(|a| !a.is_empty()).unwrap_or(false);
+            if let Some(p) = pick_path(ch, v, &non_empty_array) {
+                let a = json_at(v, &p).unwrap().as_array_mut().unwrap();
+                let i = ch.below(a.len());
+                let c = a[i].clone();
+                a.push(c);
+            }
+            "element-duplicated"
+        }
+        _ => {
+            // an array loses all its elements (object without fields, union without members, enum without values)
+            let non_empty_array = |x: &Value| x.as_array().map(|a| !a.is_empty()).unwrap_or(false);
+            if let Some(p) = pick_path(ch, v, &non_empty_array) {
+                json_at(v, &p).unwrap().as_array_mut().unwrap().clear();
+            }
+            "array-emptied"
+        }
+    }
+}
+
+/// schema text = introspection JSON (valid, structurally mutated or character-mutated); operations valid for the model
+fn json_schema_case(case: &mut Case, cfgs: &[Config]) -> CaseResult {
+    use crate::introspect::{introspect, IntrospectOpts};
+    let _g = InflightGuard::enter("introspection-json", case.ch.data());
+    let mut mch = Choices::new((0..120).map(|_| case.ch.raw()).collect());
+    let mut so = SchemaGenOpts::default();
+    so.comment_close_in_text = case.allow("description_with_comment_close");
+    let gs = gen_schema(&mut case.ch, &so);
+    let (gd, _) = gen_doc(&mut case.ch, &gs.schema, &DocGenOpts::default());
+    let doc = tame_exponential(case, &gs.schema, gd.doc);
+    let io = IntrospectOpts { meta_types: mch.flip(), absent_optionals: mch.flip(), shuffle: mch.flip() };
+    let js = introspect(&gs.schema, &io, Some(&mut mch));
+    let mut labels = vec![];
+    let text = match mch.below(8) {
+        0 => js,
+        1 => {
+            labels.push("json-char-mutation");
+            mutate_chars(&mut mch, &js)
+        }
+        _ => {
+            let mut v: Value = serde_json::from_str(&js).expect("introspect() renders JSON");
+            let n = 1 + mch.below(2);
+            for _ in 0..n {
+                labels.push(mutate_introspection(&mut mch, &mut v));
+            }
+            serde_json::to_string(&v).unwrap()
+        }
+    };
+    let cfg = case.ch.pick(cfgs).clone();
+    let ops = vec![(PathBuf::from("/p/ops.graphql"), canon_op(&doc))];
+    let detail = json!({"mode": labels, "schema_json": text, "operation_files": [{"path": "/p/ops.graphql", "text": ops[0].1}]});
+    let gate = case.is_excluded("introspection_invalid_schema");
+    let reached = match run_pipeline_json(&text, &ops, &cfg, &detail, gate) {
+        Ok(r) => r,
+        Err(f) if std::env::var("VH_DEBUG_JSON").map(|v| v == "1" || f.signature.contains(&v)).unwrap_or(false) => {
+            case.label(&format!("DEBUG {} <- {:?}", f.signature, labels));
+            return Ok(());
+        }
+        Err(f) => return Err(f),
+    };
+    case.evals(1);
+    if labels.is_empty() {
+        case.label("valid-json");
+    }
+    for l in &labels {
+        case.label(l);
+    }
+    if reached.excluded_invalid_json_schema {
+        // counted in excluded_by_known_finding
+        let _ = case.allow("introspection_invalid_schema");
+        case.label("excluded:invalid-schema-unchecked");
+    }
+    if reached.schema_parsed {
+        case.label("json-accepted");
+    } else {
+        case.label("json-rejected");
+    }
+    if reached.ops_checked {
+        case.label("operations-checked");
+    }
+    if reached.generated {
+        case.label("generated");
+    }
+    if reached.schema_parsed && !labels.is_empty() {
+        case.nontrivial(&(&text, &ops[0].1));
+    }
+    case.sample(|| json!({"mutations": labels, "accepted": reached.schema_parsed, "generated": reached.generated}));
     Ok(())
 }
 
@@ -1156,6 +1486,28 @@ pub fn run(env: &Env) -> i32 {
             Err(_) => Err(Failure::new("timeout:generate-exponential", "generate did not finish a 661-byte valid document within 3 s", json!({"schema": schema, "operation": op}))),
         }
     });
+    rep.probe("C08-introspection-unlisted-type", || {
+        let js = r#"{"__schema":{"queryType":{"name":"Query"},"mutationType":null,"subscriptionType":null,"directives":[],"types":[{"kind":"OBJECT","name":"Query","description":null,"fields":[{"name":"a","description":null,"args":[],"type":{"kind":"OBJECT","name":"Missing","ofType":null},"isDeprecated":false,"deprecationReason":null}],"inputFields":null,"interfaces":[],"enumValues":null,"possibleTypes":null}]}}"#;
+        let of = vec![(PathBuf::from("/p/o.graphql"), "query Q { __typename }\n".to_string())];
+        run_pipeline_json(js, &of, &cfgs[0], &json!({"schema_json": js}), false).map(|_| ())
+    });
+    rep.probe("C08-user-defined-skip-without-if", || project_probe("directive @skip on FIELD\ndirective @include(x: Int) on FIELD\ntype Query { id: ID }\n", "query Q { id @skip a: id @include(x: 1) }\n"));
+    rep.probe("C08-introspection-invalid-schema-unchecked", || {
+        // object Dog lists interface Pet but lacks Pet's field `name`: not a valid schema; `check` is not run on
+        // introspection schemas, the operation is valid against the interface, and generate looks `name` up on Dog
+        let ty = |k: &str, n: &str| json!({"kind": k, "name": n, "ofType": null});
+        let field = |n: &str, t: Value| json!({"name": n, "description": null, "args": [], "type": t, "isDeprecated": false, "deprecationReason": null});
+        let def = |k: &str, n: &str, fields: Value, ifaces: Value, poss: Value| json!({"kind": k, "name": n, "description": null, "fields": fields, "inputFields": null, "interfaces": ifaces, "enumValues": null, "possibleTypes": poss});
+        let js = json!({"__schema": {"queryType": {"name": "Query"}, "mutationType": null, "subscriptionType": null, "directives": [], "types": [
+            def("OBJECT", "Query", json!([field("pet", ty("INTERFACE", "Pet"))]), json!([]), Value::Null),
+            def("INTERFACE", "Pet", json!([field("name", ty("SCALAR", "String"))]), json!([]), json!([ty("OBJECT", "Dog")])),
+            def("OBJECT", "Dog", json!([field("age", ty("SCALAR", "String"))]), json!([ty("INTERFACE", "Pet")]), Value::Null),
+            def("SCALAR", "String", Value::Null, Value::Null, Value::Null),
+        ]}})
+        .to_string();
+        let of = vec![(PathBuf::from("/p/o.graphql"), "query Q { pet { name } }\n".to_string())];
+        run_pipeline_json(&js, &of, &cfgs[0], &json!({"schema_json": js, "operation": of[0].1}), false).map(|_| ())
+    });
     rep.probe("C08-merge-conflict-panic", || project_probe("type Query { a: Int b: Query }\n", "query { x: a x: b { a } }\n"));
     rep.campaign("valid", env.cases(3_000, 150_000), (60, 2500), move |case| pipeline_case(case, "valid", 0, c));
     rep.campaign("op-token-mutation", env.cases(8_000, 400_000), (60, 2500), move |case| pipeline_case(case, "op-token-mutation", 1, c));
@@ -1165,6 +1517,8 @@ pub fn run(env: &Env) -> i32 {
     rep.campaign("soup-in-project", env.cases(3_000, 150_000), (60, 2500), move |case| pipeline_case(case, "soup-in-project", 4, c));
     rep.campaign("parsers", env.cases(30_000, 1_500_000), (0, 900), parser_only_case);
     rep.campaign("config-text", env.cases(20_000, 500_000), (0, 200), config_case);
+    rep.note("campaign introspection-json: the schema text is an introspection result (what a `.json` schema file holds): the JSON a conformant server returns for a generated model, unchanged (1/8), character-mutated (1/8) or with 1-2 structural mutations (dangling / wrong-kind type references, removed or duplicated types and elements, changed kinds, nulled or retyped members, changed root types, names that are no names, mangled default values, emptied arrays); operations are valid for the unmutated model. Everything the CLI runs for such a schema is run: schema_from_introspection_json, type_system_to_ast, operation check against the schema value and, if it reports nothing, all printers. Non-trivial: a mutated JSON that is accepted");
+    rep.campaign("introspection-json", env.cases(6_000, 300_000), (60, 2500), move |case| json_schema_case(case, c));
     rep.shrink_iters = Some(150);
     let base = work_dir("c08");
     let b2 = base.clone();
